@@ -3,21 +3,23 @@ package main
 // Unit is one test binary (package + build tags + instrumentation) and the test function that
 // drives the exploration.
 type Unit struct {
-	Name           string
-	Pkg            string // directory relative to /repo ("." for the root package)
-	Tags           string
-	Race           bool
-	Instrument     bool   // run the rewriter (import swaps, blocking constructs) over the engine packages
-	Test           string // test function name
-	Tier           string // "" = both tiers, "thorough" = only in the thorough tier
-	Shards         int
-	ShardsThorough int
-	Weight         int // CPU slots one shard occupies (in-process parallel searches use many)
-	BudgetQuick    int // internal deadline in seconds handed to the harness (0 = none)
-	BudgetThorough int
-	Env            []string
-	ExtraOverlay   map[string]string
-	GfdGeometry    [2]int // rows, columns of the scaled connMatrix geometry (C14), 0 = real
+	Name            string
+	Pkg             string // directory relative to /repo ("." for the root package)
+	Tags            string
+	Race            bool
+	Instrument      bool   // run the rewriter (import swaps, blocking constructs) over the engine packages
+	Test            string // test function name
+	Tier            string // "" = both tiers, "thorough" = only in the thorough tier
+	Shards          int
+	ShardsThorough  int
+	Weight          int // CPU slots one shard occupies (in-process parallel searches use many)
+	BudgetQuick     int // internal deadline in seconds handed to the harness (0 = none)
+	BudgetThorough  int
+	Env             []string
+	ExtraOverlay    map[string]string
+	GfdGeometry     [2]int   // rows, columns of the scaled connMatrix geometry (C14), 0 = real
+	InstrPkgs       []string // packages the rewriter instruments (default: the engine packages)
+	RewriteAllChans bool
 }
 
 // Check is one property.
@@ -48,6 +50,21 @@ func checks() []Check {
 			},
 		},
 		{
+			ID: "C03", Level: "model_checking",
+			Rule:        "stateless model checking of the real netpoll.Poller (default and poll_opt variants) on a real epoll instance/eventfd: every interleaving up to a preemption bound of one polling loop with 1..3 producers calling Trigger; scheduling points at every atomic, queue operation and system call; an execution is one evaluation; oracle at quiescence (loop parked in epoll_wait, producers returned): every accepted task ran exactly once on the loop thread, high-priority tasks of one producer in issue order, and the loop is still wakeable",
+			Assumptions: append([]string{"sequentially consistent interleavings; fairness rotation after 60 consecutive steps", "epoll/eventfd behaviour is that of this kernel; enabledness of epoll_wait is decided by poll(2) on the epoll descriptor"}, commonAssumptions...),
+			Units: []Unit{
+				{Name: "poller-default", Pkg: "pkg/netpoll", Test: "TestMC_C03", Instrument: true, InstrPkgs: []string{"pkg/netpoll", "pkg/queue"}, Shards: 8, ShardsThorough: 11, BudgetQuick: 200, BudgetThorough: 1500, Env: []string{"GOMAXPROCS=2"}},
+				{Name: "poller-poll_opt", Pkg: "pkg/netpoll", Tags: "poll_opt", Test: "TestMC_C03", Instrument: true, InstrPkgs: []string{"pkg/netpoll", "pkg/queue"}, Shards: 8, ShardsThorough: 11, BudgetQuick: 200, BudgetThorough: 1500, Env: []string{"GOMAXPROCS=2"}},
+			},
+		},
+		{
+			ID: "C13", Level: "model_checking",
+			Rule:        "stateless model checking: every interleaving (up to a preemption bound, iterated) of small thread configurations calling Enqueue/Dequeue on the real lockFreeQueue, with every atomic load/CAS/add a scheduling point; an execution is one evaluation; distinct_nontrivial = distinct observed dequeue-result vectors summed over configurations; each history is checked for linearizability against the sequential FIFO by brute force",
+			Assumptions: append([]string{"sequentially consistent interleavings (Go atomics are SC); non-atomic accesses are C05's business", "fairness: after 60 consecutive steps of one thread while another is enabled the scheduler rotates (cuts only unfair infinite executions)"}, commonAssumptions...),
+			Units:       []Unit{{Name: "queue", Pkg: "pkg/queue", Test: "TestMC_C13", Instrument: true, InstrPkgs: []string{"pkg/queue"}, Shards: 9, ShardsThorough: 13, BudgetQuick: 200, BudgetThorough: 1500, Env: []string{"GOMAXPROCS=2"}}},
+		},
+		{
 			ID: "C14", Level: "model_checking",
 			Rule: "explicit-state BFS over add/del/lookup/iterate(+del) sequences on the real connMatrix of both build variants (map; gc_opt matrix with real and with scaled geometry); a state is distinct by the registry's full internal layout (which descriptor sits in which slot, next free slot); every transition compared with a map[int]*conn reference incl. lookups of all descriptors, count, visit-exactly-once and the stored indexes of every live connection",
 			Assumptions: append([]string{"scaled geometry = the current internal/gfd/gfd.go with only ConnMatrixRowMax/ConnMatrixColumnMax replaced (4x2, 4x4), so that all table layouts across row boundaries are enumerable; the real geometry is covered by depth-bounded search and scripted 65538-connection populations",
@@ -61,25 +78,25 @@ func checks() []Check {
 		},
 		{
 			ID: "C15", Level: "model_checking",
-			Rule: "policy part: round-robin for every N in 1..256 (3N accepts), least-connections as explicit-state BFS over accept/close sequences on fake loops with real connection counters plus every count vector in {0..3}^N, source-addr-hash for every N in 1..256 over an address alphabet; distinct_nontrivial = distinct (policy, N, count-vector/address) cases",
+			Rule:        "policy part: round-robin for every N in 1..256 (3N accepts), least-connections as explicit-state BFS over accept/close sequences on fake loops with real connection counters plus every count vector in {0..3}^N, source-addr-hash for every N in 1..256 over an address alphabet; distinct_nontrivial = distinct (policy, N, count-vector/address) cases",
 			Assumptions: append([]string{"fake event loops: only the registry counters are real; the live clause (callbacks run on the assigned loop) is checked by the engine-level unit"}, commonAssumptions...),
-			Units: []Unit{{Name: "policy", Pkg: ".", Test: "TestMC_C15", Weight: 8}},
+			Units:       []Unit{{Name: "policy", Pkg: ".", Test: "TestMC_C15", Weight: 8}},
 		},
 		{
 			ID: "C16", Level: "exploration",
-			Rule: "bounded-exhaustive enumeration: every string up to a length over a 20-symbol alphabet behind 5 prefixes, every derivation of an address grammar, every integer option value of the stated ranges through createListeners and NewClient; distinct_nontrivial = distinct inputs (each enumerated input is distinct)",
+			Rule:        "bounded-exhaustive enumeration: every string up to a length over a 20-symbol alphabet behind 5 prefixes, every derivation of an address grammar, every integer option value of the stated ranges through createListeners and NewClient; distinct_nontrivial = distinct inputs (each enumerated input is distinct)",
 			Assumptions: append([]string{"malformed strings not pinned down by the statement may fail with any error (as gnet's own tests accept)", "capacities above 2^62 are outside the domain (no power of two fits an int)"}, commonAssumptions...),
-			Units: []Unit{{Name: "parse", Pkg: ".", Test: "TestMC_C16", Weight: 16}},
+			Units:       []Unit{{Name: "parse", Pkg: ".", Test: "TestMC_C16", Weight: 16}},
 		},
 		{
 			ID: "C17", Level: "exploration",
-			Rule: "conversion part: bounded-exhaustive enumeration of {tcp,udp,ip} x IP alphabet x all 65536 ports x zone alphabet, unix names x networks, and the zone index round trip for every index of a range; distinct_nontrivial = distinct inputs; live part (RemoteAddr/LocalAddr at every callback under churn) by the engine-level unit",
+			Rule:        "conversion part: bounded-exhaustive enumeration of {tcp,udp,ip} x IP alphabet x all 65536 ports x zone alphabet, unix names x networks, and the zone index round trip for every index of a range; distinct_nontrivial = distinct inputs; live part (RemoteAddr/LocalAddr at every callback under churn) by the engine-level unit",
 			Assumptions: append([]string{"zones are compared by the interface index they denote on this host (lo=1, eth0=4); indices >= 2^24-1 are outside the domain (the decimal parser caps there)", "a nil IP and the unspecified address are the same address"}, commonAssumptions...),
-			Units: []Unit{{Name: "conv", Pkg: "pkg/socket", Test: "TestMC_C17conv", Weight: 2}},
+			Units:       []Unit{{Name: "conv", Pkg: "pkg/socket", Test: "TestMC_C17conv", Weight: 2}},
 		},
 		{
 			ID: "C20", Level: "exploration",
-			Rule: "bounded-exhaustive enumeration of the integer domain (every int of the stated ranges, all power-of-two neighbourhoods up to 2^62); expectations derived from interval enumeration (loop-based reference); distinct_nontrivial = distinct inputs > 2 (math) / all inputs (index, gfd), counted",
+			Rule:        "bounded-exhaustive enumeration of the integer domain (every int of the stated ranges, all power-of-two neighbourhoods up to 2^62); expectations derived from interval enumeration (loop-based reference); distinct_nontrivial = distinct inputs > 2 (math) / all inputs (index, gfd), counted",
 			Assumptions: commonAssumptions,
 			Units: []Unit{
 				{Name: "math", Pkg: "pkg/math", Test: "TestMC_C20", Weight: 16},
